@@ -29,7 +29,7 @@ class _FloatToFraction(ast.NodeTransformer):
                 raise GeneratorError("no source text for float literal at line %d" % node.lineno)
             text = text.strip()
             self.n += 1
-            fn = "__Fr_text" if self.mode == "text" else "__Fr_double"
+            fn = "_FrText_" if self.mode == "text" else "_FrDouble_"
             new = ast.Call(func=ast.Name(id=fn, ctx=ast.Load()),
                            args=[ast.Constant(value=text)], keywords=[])
             return ast.copy_location(new, node)
@@ -54,8 +54,8 @@ def load_exact(relpath, mode="text", modname=None, extra_globals=None):
     ast.fix_missing_locations(tree)
     mod = types.ModuleType(modname or ("exact_" + os.path.basename(relpath)[:-3]))
     mod.__file__ = path
-    mod.__dict__["__Fr_text"] = fr_text
-    mod.__dict__["__Fr_double"] = fr_double
+    mod.__dict__["_FrText_"] = fr_text
+    mod.__dict__["_FrDouble_"] = fr_double
     if extra_globals:
         mod.__dict__.update(extra_globals)
     code = compile(tree, path, "exec")
@@ -190,3 +190,33 @@ def q(fr):
     n, d = fr.numerator, fr.denominator
     s = str(abs(n)) + ".0" if d == 1 else "(/ {}.0 {}.0)".format(abs(n), d)
     return "(- {})".format(s) if n < 0 else s
+
+
+def load_exact_package(mode="text", pkg="exactq"):
+    """Load src/quadrature_rules.py and src/quadrature.py (and src/norms.py) over exact rationals as a synthetic
+    package, so that the real constructors run unmodified on numpy object arrays of Fractions."""
+    import sys
+    import types
+    name = "{}_{}".format(pkg, mode)
+    if name in sys.modules:
+        return sys.modules[name]
+    package = types.ModuleType(name)
+    package.__path__ = []
+    sys.modules[name] = package
+    for sub in ("quadrature_rules", "quadrature", "norms"):
+        path = os.path.join(REPO, "src", sub + ".py")
+        with open(path) as fh:
+            src = fh.read()
+        tree = ast.parse(src, filename=path)
+        tr = _FloatToFraction(src, mode)
+        tree = tr.visit(tree)
+        ast.fix_missing_locations(tree)
+        mod = types.ModuleType("{}.{}".format(name, sub))
+        mod.__file__ = path
+        mod.__package__ = name
+        mod.__dict__["_FrText_"] = fr_text
+        mod.__dict__["_FrDouble_"] = fr_double
+        sys.modules[mod.__name__] = mod
+        exec(compile(tree, path, "exec"), mod.__dict__)
+        setattr(package, sub, mod)
+    return package
